@@ -36,7 +36,9 @@ def run_trace(P, pid, tier, rng):
     for m in re.finditer(r"-- TRACE-ERROR (\S+) (.*)", gen):
         failed[m.group(1)] = f"T:{m.group(1)}: the real code could not be traced on the shadow input ({m.group(2)})"
     # hand-written obligations (Trace/<pid>.lean) and the ones generated from the driver tables (Trace/<pid>Auto.lean)
-    mods = [m for m in (pid, pid + "Auto") if os.path.exists(f"{LEAN}/Cgm/Trace/{m}.lean")]
+    import glob as _glob
+    mods = sorted(os.path.basename(f)[:-5] for f in _glob.glob(f"{LEAN}/Cgm/Trace/{pid}*.lean")
+                  if re.fullmatch(r"%s([A-Z][A-Za-z]*)?" % pid, os.path.basename(f)[:-5]))
     if not mods:
         raise MachineryError(f"missing Cgm/Trace/{pid}.lean")
     spans_of = {m: _theorem_spans(f"{LEAN}/Cgm/Trace/{m}.lean") for m in mods}
@@ -85,7 +87,7 @@ def run_trace(P, pid, tier, rng):
                 raise MachineryError(f"audit of Cgm.E2E.{pid} saw {n_aud} theorems, the file has {len(espans)}")
     if rc != 0:
         hit = False
-        for m in re.finditer(r"error: (?:\./)?Cgm/Trace/(%s(?:Auto)?)\.lean:(\d+):" % pid, out):
+        for m in re.finditer(r"error: (?:\./)?Cgm/Trace/(%s(?:[A-Z][A-Za-z]*)?)\.lean:(\d+):" % pid, out):
             mod, ln = m.group(1), int(m.group(2))
             owner = None
             for (start, name) in spans_of.get(mod, []):
